@@ -7,6 +7,7 @@ import Ndt.Model.FdDerivative
 import Ndt.Model.Dea
 import Ndt.Model.Steps
 import Ndt.Model.Guards
+import Ndt.Gen.BicomplexRing
 /-! The line-protocol driver: one operation per input line, one output line per input line. -/
 namespace Ndt.Driver
 open Ndt.Proto Ndt.Gen
@@ -68,8 +69,20 @@ def clsOf : String → Cls
 def outStr : Outcome → String
   | .value => "value" | .valueError => "ValueError"
 
+def bcOf : List String → Bc (Cx Rat)
+  | [a, b, c, d] => ⟨⟨rq a, rq b⟩, ⟨rq c, rq d⟩⟩
+  | _ => ⟨⟨0, 0⟩, ⟨0, 0⟩⟩
+def bcStr (z : Bc (Cx Rat)) : String := cxStr z.z1 ++ " " ++ cxStr z.z2
+
 def handle (w : List String) : String :=
   match w with
+  -- bc op a(4 rationals) [b(4 rationals)]: ring operations of Bicomplex on Gaussian rationals
+  | ["bc", "neg", a1, a2, a3, a4] => bcStr (bcOf [a1, a2, a3, a4]).neg
+  | ["bc", "conj", a1, a2, a3, a4] => bcStr (bcOf [a1, a2, a3, a4]).conjugate
+  | ["bc", op, a1, a2, a3, a4, b1, b2, b3, b4] =>
+    let a := bcOf [a1, a2, a3, a4]; let b := bcOf [b1, b2, b3, b4]
+    if op == "add" then bcStr (a.add b) else if op == "sub" then bcStr (a.sub b)
+    else if op == "mul" then bcStr (a.mul b) else "bad-op"
   -- outcome cls method n order xComplex fComplex fdelSize hSize numSteps
   | ["outcome", cls, m, n, o, xc, fc, fs, hs, ns] =>
     outStr (Call.outcome ⟨clsOf cls, Method.ofString m, n.toNat!, o.toNat!, xc == "1", fc == "1", fs.toNat!, hs.toNat!, ns.toNat!⟩)
